@@ -112,9 +112,13 @@ func (e *c08Env) verdict(f *drv.Failure) *drv.Failure {
 	if f == nil {
 		return nil
 	}
-	if e.muted[f.Class] {
-		e.st.Probe("muted_" + f.Class)
-		return nil
+	for m := range e.muted {
+		// "class" or "class=substring of the signature"
+		cl, sub, _ := strings.Cut(m, "=")
+		if cl == f.Class && strings.Contains(f.Sig, sub) {
+			e.st.Probe("muted_" + f.Class)
+			return nil
+		}
 	}
 	if f.Class != "harness" && e.st.IsKnown(f) {
 		return nil
